@@ -59,7 +59,8 @@ Inductive exn :=
   | FloatingPoint             (* FloatingPointError: Vec.normalized of a zero vector *)
   | BadArgument               (* InvalidArgumentValueError of check_argument *)
   | PlainException            (* raise Exception(...) *)
-  | NoneDeref.                (* attribute access on None: circumcenter of a triangle whose bisectors are parallel *)
+  | NoneDeref                 (* attribute access on None: circumcenter of a triangle whose bisectors are parallel *)
+  | WrongRepresentation.      (* .real/.imag of an array, or indexing a complex: the per-argument isinstance dispatch went wrong *)
 Inductive res (A : Type) := Ret (a : A) | Raise (e : exn).
 Arguments Ret {A} a. Arguments Raise {A} e.
 Definition bind {A B} (x : res A) (f : A -> res B) : res B :=
@@ -71,6 +72,13 @@ Definition bind_opt {A B} (x : option A) (f : A -> res B) : res B :=
 Inductive nkind := L2 | L1 | Linf | KBad.
 Definition nkind_eqb (a b : nkind) : bool :=
   match a, b with L2, L2 | L1, L1 | Linf, Linf | KBad, KBad => true | _, _ => false end.
+
+(* a 2D argument in either of its accepted representations: an array / Vec / list, or a complex number *)
+Inductive arg2 (T : Type) := AVec (v : list T) | ACplx (re im : T).
+Arguments AVec {T} v. Arguments ACplx {T} re im.
+Definition is_cplx {T} (a : arg2 T) : bool := match a with ACplx _ _ => true | AVec _ => false end.
+Definition a2_re {T} (a : arg2 T) : res T := match a with ACplx re _ => Ret re | AVec _ => Raise WrongRepresentation end.
+Definition a2_im {T} (a : arg2 T) : res T := match a with ACplx _ im => Ret im | AVec _ => Raise WrongRepresentation end.
 
 Fixpoint map2 {A B C} (f : A -> B -> C) (a : list A) (b : list B) : list C :=
   match a, b with x :: s, y :: t => f x y :: map2 f s t | _, _ => [] end.
@@ -116,6 +124,9 @@ Section Lib.
   Definition vmaxl (v : vec) : T := match v with [] => zero | x :: t => fold_right omax x t end.
   Definition vdot (a b : vec) : T := vsum (vmul a b).
   Definition vfull (n : nat) (s : T) : vec := repeat s n.       (* np.full(n, s) *)
+  Definition a2_nth (a : arg2 T) (i : nat) : res T :=           (* a[i] *)
+    match a with AVec v => Ret (nth i v zero) | ACplx _ _ => Raise WrongRepresentation end.
+  Definition vouter (a b : vec) : list vec := map (fun x => map (fun y => omul o x y) b) a.   (* np.outer(a, b) *)
   Fixpoint vset (v : vec) (i : nat) (x : T) : vec :=            (* v[i] = x  /  v.x = x *)
     match v, i with
     | [], _ => []
@@ -168,7 +179,7 @@ Arguments oQ {T}. Arguments ofmod {T}. Arguments vnth {T}. Arguments vadd {T}. A
 Arguments vmul {T}. Arguments vdiv {T}. Arguments vmax {T}. Arguments vmin {T}. Arguments vmaxs {T}.
 Arguments vmins {T}. Arguments vadds {T}. Arguments vsubs {T}. Arguments vscale {T}. Arguments vscaler {T}.
 Arguments vdivs {T}. Arguments vneg {T}. Arguments vabs {T}. Arguments vsum {T}. Arguments vmaxl {T}.
-Arguments vdot {T}. Arguments vfull {T}. Arguments vset {T}. Arguments vdivs_raise {T}. Arguments pts_rank2 {T}. Arguments pts_dim {T}. Arguments vle {T}. Arguments vlt {T}. Arguments vge_any {T}.
+Arguments vdot {T}. Arguments vfull {T}. Arguments a2_nth {T}. Arguments vouter {T}. Arguments vset {T}. Arguments vdivs_raise {T}. Arguments pts_rank2 {T}. Arguments pts_dim {T}. Arguments vle {T}. Arguments vlt {T}. Arguments vge_any {T}.
 Arguments vhead2 {T}. Arguments vmin_axis0 {T}. Arguments vmax_axis0 {T}. Arguments blo {T}. Arguments bhi {T}.
 Arguments bdim {T}. Arguments mk_atan2 {T}. Arguments ang_nz {T}. Arguments ang_sub {T}. Arguments ang_sgn {T}.
 
